@@ -88,6 +88,18 @@ CHECKS = {
             'Trusted: ref/bind.py conflict rules. Resource/resource pairs across levels are precedence (C10), not '
             'conflicts.',
             'DESIGN.md section 5, C04'),
+    'C08': ('E1-product-enumerator+E2-history-bfs',
+            'bounded-exhaustive product of failing behaviours x chain positions x error handlers x Accept on the real '
+            'application, plus explicit-state exploration of all request histories up to depth 3/4 against a fresh-'
+            'application differential oracle',
+            'About 390 behaviours (non-Response returns, 18 exception types x 6 message kinds incl. huge, control, lone '
+            'surrogate, str/repr that raise; every HTTPException class raised/returned, breaking/non-breaking) at each '
+            'of 20 chain positions on a route with and without renderer under 5 handler kinds and 4 Accept headers; '
+            'every history of <=3 (thorough 4) requests over an 11-letter alphabet followed by a 7-request probe set '
+            'compared with a fresh application. Exhaustive small products are needed because the failure modes are '
+            'combinations (message x handler x position).',
+            'Trusted: the small result model in props/c08.py (endpoint-side values go to render, others are final).',
+            'DESIGN.md section 5, C08'),
 }
 
 NOT_YET = 'check not built yet in this revision of /verif (planned: bounded exhaustive exploration, see DESIGN.md section 5)'
